@@ -138,8 +138,8 @@ def run_shard(shard, ctx):
             for holes in (0, 1):
                 run_case({"kind": "many", "ntables": nt, "holes": holes}, ctx)
     elif kind == "realfile":
-        for buffering in (0, -1):
-            for steps in itertools.product(("decode", "stream-big", "stream-small"), repeat=3):
+        for buffering in (0, -1, "gzip", "bz2", "lzma"):
+            for steps in itertools.product(("decode", "stream-big", "stream-small"), repeat=3 if isinstance(buffering, int) else 2):
                 run_case({"kind": "realfile", "buffering": buffering, "steps": list(steps) + ["decode"]}, ctx)
     elif kind == "alive":
         for n in (2, 3):
@@ -251,7 +251,18 @@ def run_case(case, ctx):
             p = os.path.join(d, "vm.vmrs")
             with open(p, "wb") as f:
                 f.write(img)
-            fh = open(p, "rb", buffering=0) if case["buffering"] == 0 else open(p, "rb")
+            if case["buffering"] in ("gzip", "bz2", "lzma"):
+                # a decompressing reader over another file: its fileno() names the compressed file, not this byte stream
+                import bz2
+                import gzip
+                import lzma
+
+                mod_ = {"gzip": gzip, "bz2": bz2, "lzma": lzma}[case["buffering"]]
+                with mod_.open(p, "wb") as f:
+                    f.write(img)
+                fh = mod_.open(p, "rb")
+            else:
+                fh = open(p, "rb", buffering=0) if case["buffering"] == 0 else open(p, "rb")
             try:
                 hf = HyperVFile(fh)
                 for step in case["steps"]:
@@ -273,7 +284,6 @@ def run_case(case, ctx):
                             return
                         del st
                         gc.collect()
-                os.fstat(fh.fileno())
                 fh.seek(0)
                 if fh.read(4) != img[:4]:
                     ctx.violation(case, {"subject": "hyperv.realfile", "kind": "handle-unusable-afterwards"}, {})
